@@ -7,7 +7,7 @@ From Coq Require Import List ZArith Bool.
 From RtoscV Require Import Match.PatSpec Match.MatchModel Ports.NameModel Ports.PathModel Ports.WalkModel
      Ports.WalkProofs Ports.WalkRegress Ports.DecProofs Ports.EnumProofs
      Ports.DispatchModel Ports.DispatchProofs Ports.TreeProofs Ports.DispatchWalk
-     Ports.LookupGen Ports.NamesModel Ports.NamesOk.
+     Ports.LookupGen Ports.NamesModel Ports.NamesOk Ports.SnipRegress.
 Import ListNotations.
 Local Open Scope Z_scope.
 
@@ -125,7 +125,8 @@ Proof. exact ex_wf_ok. Qed.
    tree_ok covers both), and matches = 1.  Composition of C09_enumerates with
    C05's matcher (path_complete) and C04's tree dispatch
    (C04_exactly_one_leaf).  Side conditions: names of the shape the macros
-   produce ([dok]: sub-tree ports one component "text/" or "text#N/", N < 10^9,
+   produce ([dok]: sub-tree ports one or more components "text/" or "text#N/"
+   - the recursion callbacks skip as many components as the name has -, N < 10^9,
    7-bit literal text without : { * #, no two '#N' adjacent, a leaf name does
    not end in '/'), and pairwise non-overlapping sibling names
    ([table_disjoint]: no message is matched by two ports of one table - the
@@ -190,20 +191,33 @@ Theorem C09_names_ok_nonvacuous :
   apropos (map render_port ex_names) [47; 99; 49; 49; 47; 120; 97] = AFound [2%nat; 0%nat].
 Proof. exact ex_names_ok. Qed.
 
-(* Observation (not a theorem about every tree): a multi-component sub-tree
-   name ("a/b/") paired with the macro recursion callback (rRecurCb, whose SNIP
-   strips ONE component) is walked as /a/b/x but dispatches to no leaf - the
-   shape C09_dispatchable excludes; names_ok is false on it.  Reproduced on the
-   real code: corpus/C09/defects.txt (kind X).  The macros themselves cannot
-   produce such a name (rRecur(name) stringifies a C identifier); a
-   hand-written callback that strips as many components as the name has (the
-   harness's kind M) dispatches them. *)
-Theorem C09_multicomponent_macro_refuted :
+(* A multi-component sub-tree name ("a/b/", "a#3/b#2/c/") paired with the macro
+   recursion callbacks (rRecurCb ...): since the commit "fix: the recursion
+   callbacks skipped one component of the message ..." SNIP skips as many
+   components as the matched name has, the walked addresses dispatch to the
+   reported leaf and names_ok accepts such names (structured by components),
+   so C09_dispatchable / C09_dispatchable_names_ok / C18_lookup cover them. *)
+Theorem C09_multicomponent_macro :
   walk None (map render_port ex_multi) [] = WOk [([0%nat; 0%nat], [47; 97; 47; 98; 47; 120])] [47] /\
   (let d := dispatch (to_tree no_hash_search one_id ex_multi) [47; 97; 47; 98; 47; 120] [] true 0 in
+   matches d = 1 /\ leaf_count (log d) = 1 /\ length (log d) = 2%nat) /\
+  names_ok ex_multi = true /\ names_ok ex_multi2 = true /\
+  (exists out b, walk None (map render_port ex_multi2) [] = WOk out b /\ length out = 138%nat /\
+                 In ([0%nat; 1%nat], [47; 97; 50; 47; 98; 49; 47; 99; 47; 118; 49; 47; 119; 49; 48]) out) /\
+  apropos (map render_port ex_multi2) [47; 97; 50; 47; 98; 49; 47; 99; 47; 118; 49; 47; 119; 49; 48] = AFound [0%nat; 1%nat].
+Proof. exact multicomponent_macro. Qed.
+
+(* regression witness: before that commit SNIP stripped ONE component: the
+   address /a/b/x the walk reports for { "a/b/" -> { "x" } } reached no leaf
+   (the inner table was handed "b/x"): matches = 0, no leaf callback.
+   Reproduced on the real code: corpus/C09/defects.txt. *)
+Theorem C09_multicomponent_macro_pinned_refuted :
+  walk None (map render_port ex_multi) [] = WOk [([0%nat; 0%nat], [47; 97; 47; 98; 47; 120])] [47] /\
+  (let d := dispatch_pinned (to_tree no_hash_search one_id ex_multi) [47; 97; 47; 98; 47; 120] [] true 0 in
    matches d = 0 /\ leaf_count (log d) = 0 /\ length (log d) = 1%nat) /\
-  names_ok ex_multi = false.
-Proof. exact multicomponent_macro_refuted. Qed.
+  (let d := dispatch (to_tree no_hash_search one_id ex_multi) [47; 97; 47; 98; 47; 120] [] true 0 in
+   matches d = 1 /\ leaf_count (log d) = 1 /\ length (log d) = 2%nat).
+Proof. exact multicomponent_macro_pinned_refuted. Qed.
 
 (* regression witness: walk_ports_recurse0 before the "fix:" commit wrote a '/'
    behind every index, so the sub-tree name a#2b/ was walked as /a0/b/, /a1/b/
